@@ -8,7 +8,7 @@ pat=${1:-*}
 for d in seeded/$pat/; do
   id=$(basename $d); pid=$(echo $id | cut -c1-3)
   git -C /repo checkout -q -- .
-  if git -C /repo apply $d/patch.diff 2>/dev/null; then
+  if git -C /repo apply /verif/$d/patch.diff 2>/dev/null; then
     VERIF_EVIDENCE_DIR=/tmp/seeded_evid ./check $pid --tier quick > /tmp/seeded_run.out 2>&1; rc=$?
     git -C /repo checkout -q -- .
     { echo "git -C /repo apply seeded/$id/patch.diff; ./check $pid --tier quick; git -C /repo checkout -- .   -> exit $rc"; grep "^VIOLATION\|^\[$pid\]" /tmp/seeded_run.out | head -4; grep "^   \[\|^   " /tmp/seeded_run.out | head -2 | cut -c1-400; } > $d/official_run.txt
